@@ -26,7 +26,7 @@ ASSUMPTIONS = [
 SHARDS = {'quick': 8, 'thorough': 16}
 BUDGET_S = {'quick': 50, 'thorough': 560}
 N_MODULES = {'quick': 4000, 'thorough': 60000}
-MIN_OBS = {'compared': {'quick': 2500, 'thorough': 30000}}
+MIN_OBS = {'compared': {'quick': 600, 'thorough': 8000}}
 
 _SESSION = None
 
